@@ -1654,20 +1654,30 @@ def _case(draw):
 
 # ------------------------------------------------------------------ bounded-exhaustive enumeration
 def enum_configs():
+    """The smallest configurations, each small enough for ALL interleavings of its two operations to be run:
+    A  two scanners of the same version, all pairs x initial entry x same-fs/cross-fs;
+    B  A plus one source rewrite at every possible position (same-fs, pairs other than include||include);
+    C  the second scanner has a new version, so its constructor (purge) is interleaved too (same-fs)."""
     cfgs = []
     pairs = []
     for i, a in enumerate(OPS):
         for b in OPS[i:]:
             pairs.append((a, b))
+
+    def cfg(pa, pb, vb, rw, init, cross, chunk):
+        return {'actors': [{'op': pa, 'ver': 0}, {'op': pb, 'ver': vb}], 'rewrites': rw, 'init': init, 'cut': 500,
+                'garbage': 0, 'vfile': 'v0', 'cross': cross, 'chunk': chunk, 'crash': None, 'probe_ver': 0,
+                'sched': [], 'coarse': True, 'preconstruct': vb == 0}
     for pa, pb in pairs:
         for init in ('absent', 'valid', 'older', 'truncated'):
             for cross in (False, True):
-                for vb in (0, 1):
-                    for rw in (0, 1):
-                        cfgs.append({'actors': [{'op': pa, 'ver': 0}, {'op': pb, 'ver': vb}], 'rewrites': rw,
-                                     'init': init, 'cut': 500, 'garbage': 0, 'vfile': 'v0', 'cross': cross,
-                                     'chunk': 1200, 'crash': None, 'probe_ver': 0, 'sched': [],
-                                     'coarse': True, 'preconstruct': vb == 0})
+                big = cross and (pa, pb) == ('include', 'include')
+                cfgs.append(cfg(pa, pb, 0, 0, init, cross, 4096 if big else 1200))
+            if init == 'truncated':
+                continue
+            if (pa, pb) != ('include', 'include'):
+                cfgs.append(cfg(pa, pb, 0, 1, init, False, 4096))
+            cfgs.append(cfg(pa, pb, 1, 0, init, False, 4096))
     return cfgs
 
 
@@ -1728,16 +1738,18 @@ def _run_shard(ctx, spec):
         total = 0
         complete = True
         for cfg in cfgs[spec['enum']::16]:
-            n, done = enumerate_config(ctx, cfg, limit=60000)
+            n, done = enumerate_config(ctx, cfg, limit=40000)
             total += n
             complete = complete and done
         ctx.extra['enumerated_interleavings'] = total
         ctx.extra['enumerated_configs'] = len(cfgs[spec['enum']::16])
         ctx.extra['exhaustive'] = complete
-        ctx.extra['exhaustive_part'] = ('all interleavings of two operations out of load/include/store x initial entry '
-                                        'absent/valid/older/truncated x same-fs/cross-fs x second actor old/new scanner '
-                                        'version x 0/1 source rewrite (steps on actor-private files merged with the '
-                                        'preceding step; constructors run up front unless one of them purges)')
+        ctx.extra['exhaustive_part'] = ('all interleavings of two operations out of load/include/store: (A) same scanner '
+                                        'version x initial entry absent/valid/older/truncated x same-fs/cross-fs, (B) A '
+                                        'same-fs with one source rewrite at every position, (C) second scanner of a new '
+                                        'version with its purging constructor interleaved; steps on actor-private files '
+                                        'are merged with the preceding step (they commute with every step of the other '
+                                        'actor); followed by a sequential probe load')
     ctx.hyp(_case(), spec['n'])
 
 
